@@ -22,11 +22,12 @@ def check_shape(t, shape, kind, maxstop, maxhide, only=None):
         for stopset in core.powerset(sub, maxstop):
             sset = frozenset(stopset)
             sids = frozenset(id(nodes[v]) for v in stopset)
-            stop = (lambda n, sids=sids: id(n) in sids) if stopset or start % 2 else None
+            # predicates may answer with any truthy / falsy value, not only True / False
+            stop = (lambda n, sids=sids: ("stop" if id(n) in sids else 0)) if stopset or start % 2 else None
             for hidden in core.powerset(sub, maxhide):
                 hset = frozenset(hidden)
                 hids = frozenset(id(nodes[v]) for v in hidden)
-                filt = (lambda n, hids=hids: id(n) not in hids) if hidden or start % 2 == 0 else None
+                filt = (lambda n, hids=hids: ([] if id(n) in hids else [n])) if hidden or start % 2 == 0 else None
                 for ml in maxlevels(h):
                     if only is not None and (start, sorted(stopset), sorted(hidden), ml) != only:
                         continue
@@ -81,10 +82,10 @@ def plan(tier):
     """(sizes, kind, maxstop, maxhide, assertions)"""
     if tier == "quick":
         return [((1, 6), "user", None, None, 0), ((1, 5), "light", None, None, 1), ((1, 4), "weird", None, None, 0), ((1, 4), "eqhash", None, None, 0), ((1, 4), "falsylight", None, None, 1),
-                ((1, 5), "node", None, None, 0), ((7, 7), "user", 1, 1, 0), ((8, 8), "light", 1, 0, 0),
+                ((1, 4), "container", None, None, 0), ((1, 5), "node", None, None, 0), ((7, 7), "user", 1, 1, 0), ((8, 8), "light", 1, 0, 0),
                 ((8, 8), "node", 0, 1, 1)]
     return [((1, 7), "user", None, None, 0), ((1, 6), "light", None, None, 1), ((1, 5), "weird", None, None, 0), ((1, 5), "eqhash", None, None, 0), ((1, 5), "falsylight", None, None, 1),
-            ((1, 6), "node", None, None, 1), ((8, 8), "node", 2, 2, 0), ((9, 9), "user", 1, 1, 0)]
+            ((1, 5), "container", None, None, 0), ((1, 6), "node", None, None, 1), ((8, 8), "node", 2, 2, 0), ((9, 9), "user", 1, 1, 0)]
 
 
 def run(tier):
